@@ -176,3 +176,88 @@ ob("C12", "K4.shared_truth", {"kind": R(0, 5), "i": R(-1, 1), "truth_order": R(0
           "cdd.shared.ast_utils.param2argparse_param"],
    bound="truth with a parameter whose default is None / NoneStr / int -1..1 / 0.0 / str / False, handed as ONE object to the three emitters in 4 orders "
          "(argparse first, as sync does): each target equals the one emitted from a fresh copy")(shared_truth)
+
+
+# K5: _conform_filename on scratch files: missing / empty / unrelated-only / unrelated + stale target; code outside the target is kept ------
+import atexit  # noqa: E402
+import os  # noqa: E402
+import shutil  # noqa: E402
+import tempfile  # noqa: E402
+
+_ROOT = tempfile.mkdtemp(prefix="chx_c12_")
+atexit.register(shutil.rmtree, _ROOT, True)
+_N = [0]
+UNRELATED = "import os\n\nX = 1\n\n\ndef helper(a, b=2):\n    return a + b\n\n\nclass Other(object):\n    y: int = 3\n"
+STALE = {
+    0: "\n\nclass T(object):\n    \"\"\"\n    Old.\n\n    :cvar q: old q\n    \"\"\"\n\n    q: int = 0\n",
+    1: "\n\ndef T(q=0):\n    \"\"\"\n    Old.\n\n    :param q: old q\n    \"\"\"\n    return q\n",
+    2: "\n\ndef T(argument_parser):\n    \"\"\"\n    Old.\n\n    :param argument_parser: argument parser\n    \"\"\"\n    argument_parser.description = 'Old.'\n    argument_parser.add_argument('--q', type=int, default=0)\n    return argument_parser\n",
+}
+
+
+def conform_file(kind, state):
+    import contextlib
+    import io
+    from ast import ClassDef, FunctionDef
+
+    import cdd.argparse_function.emit
+    import cdd.class_.emit
+    import cdd.function.emit
+    import cdd.shared.emit.file as ef
+    from cdd.shared.conformance import _conform_filename
+    from chx.shim import REPLAYING, shim
+    import types
+
+    emit = (cdd.class_.emit.class_, cdd.function.emit.function, cdd.argparse_function.emit.argparse_function)[0]
+    wanted = ClassDef
+    for k, (e, w) in enumerate(((cdd.function.emit.function, FunctionDef), (cdd.argparse_function.emit.argparse_function, FunctionDef))):
+        if kind == k + 1:
+            emit, wanted = e, w
+    before = ""
+    if state == 2:
+        before = UNRELATED
+    elif state == 3:
+        before = UNRELATED + STALE[0]
+        for k in (1, 2):
+            if kind == k:
+                before = UNRELATED + STALE[k]
+    _N[0] += 1
+    filename = os.path.join(_ROOT, "t%d.py" % _N[0])
+    if state != 0:
+        with open(filename, "wt") as f:
+            f.write(before)
+    gold = {"name": "T", "doc": "New.", "type": "static", "params": OrderedDict((("a", {"typ": "int", "doc": "an a", "default": 5}),)), "returns": None}
+    black_stub = types.SimpleNamespace(format_str=lambda src_contents, mode=None: src_contents, Mode=lambda **kw: None)
+    try:
+        with contextlib.redirect_stdout(io.StringIO()), shim(ef, black=black_stub):
+            try:
+                _conform_filename(filename=filename, search=["T"], emit_func=lambda ir, **kw: emit(ir, word_wrap=False, **kw), replacement_node_ir=gold, type_wanted=wanted)
+            except Exception as e:
+                return "_conform_filename raised %s: %s" % (type(e).__name__, e)
+        with open(filename, "rt") as f:
+            after = f.read()
+    finally:
+        if os.path.exists(filename):
+            os.remove(filename)
+    try:
+        mod = ast.parse(after)
+    except SyntaxError as e:
+        return "the target file is not valid Python afterwards: %s" % e
+    names = [n.name for n in mod.body if isinstance(n, (ast.ClassDef, ast.FunctionDef))] + [t.id for n in mod.body if isinstance(n, ast.Assign) for t in n.targets if isinstance(t, ast.Name)]
+    if state >= 2:
+        for must in ("X", "helper", "Other"):
+            if must not in names:
+                return "code outside the named target was lost: %r is gone (file state %d)" % (must, state)
+        if not any(isinstance(n, ast.Import) for n in mod.body):
+            return "the import outside the named target was lost"
+    if state != 3 or kind == 0 or not known_active("F10"):
+        if "T" not in names:
+            return "the target was not created"
+    return ""
+
+
+ob("C12", "K5.conform_file", {"kind": R(0, 2), "state": R(0, 3)}, T=600, tpath=120,
+   funcs=["cdd.shared.conformance._conform_filename", "cdd.shared.emit.file.file", "cdd.shared.ast_utils.find_in_ast", "cdd.shared.ast_utils.RewriteAtQuery.generic_visit"],
+   assumes=["stub: black.format_str -> identity in cdd.shared.emit.file under the engine (formatting is not the subject)"],
+   bound="_conform_filename on a scratch file (outside /repo and /verif) for class / function / argparse targets; file missing, empty, holding unrelated definitions "
+         "only, or unrelated definitions plus a stale target (solver-enumerated): valid Python afterwards, unrelated definitions and imports kept, target present")(conform_file)
